@@ -147,6 +147,7 @@ pub fn statement_corpus() -> Vec<&'static str> {
         "SELECT date_trunc ( 'hour' , ts ) , now ( ) FROM t",
         "SELECT make_timestamp ( 2021 , 1 , 2 , 3 , 4 , 5 , 6 ) FROM t",
         "SELECT CASE WHEN v > 1 THEN 'big' ELSE 'small' END FROM t",
+        "SELECT CASE WHEN v > 1 THEN 1 ELSE 0 END, v * 2 AS w FROM t WHERE v > 1 AND v < 30 OR v = 0 LIMIT 10",
         "SELECT CASE WHEN v > 2 THEN 'a' WHEN v > 1 THEN 'b' ELSE 'c' END AS c FROM t",
         "SELECT k FROM t :: 'some file.log'",
         "SELECT k , COUNT ( * ) FROM t GROUP BY k",
